@@ -70,6 +70,16 @@ SEEDS = {
     "c18-4": ("C18", "breadth-first method + raise policy abort on the FINAL line of the aborting member's scan (completed: true)", ["C18"]),
     "c19-4": ("C19", "CsvPaths-managed run with a warm header cache and a header cell with ; , | tab or backtick at its edge next to a space", ["C19"]),
     "c20-4": ("C20", "$group.headers.h.member into a group of >= 2 members one of which collected zero lines", ["C20"]),
+    "c01-5": ("C01", "bare all()/missing()/all(headers()) on a ragged row shorter than the header row whose present cells are all non-empty", ["C01"]),
+    "c02-5": ("C02", "a file whose first k records are blank, a * or N* scan, and a non-blank record after record last-k", ["C02"]),
+    "c03-5": ("C03", "a bool-keyed bookkeeping variable (count.NAME(<equality>)) read back through the .False tracking qualifier", ["C03"]),
+    "c04-5": ("C04", "fail_all() executed by a csvpath run through a CsvPaths manager (serial methods; by_line when it fires on the last line)", ["C04"]),
+    "c05-5": ("C05", "validation-mode with match and no-fail, no raise, and an argument mismatch in a function standing as the match component", ["C05"]),
+    "c06-5": ("C06", "CsvPath(quotechar=\"'\") and a first record containing a cell csv.writer had to quote (header pass uses the default quote)", ["C06"]),
+    "c07-5": ("C07", "collect(nexts=n) with 1 <= n <= matches, looking at the state left behind (later-line side effects leak)", ["C07"]),
+    "c08-5": ("C08", "breadth-first collecting run with if_all_agree=True, group >= 2, a line an earlier member rejects and a later member matches", ["C08"]),
+    "c09-5": ("C09", "group of >= 2 members whose variables differ (vars.json written from the merged group variables)", ["C09"]),
+    "c10-5": ("C10", "one long-lived instance resolving the same :last/:first reference before and after a newer run of the group", ["C10"]),
     "c02-1": ("C02", "lone reversed range whose low bound is 0 ([3-0]) with record 0 non-blank and a later non-blank record in range", ["C02"]),
     "c03-1": ("C03", "first() on a value first seen on line 0 that re-appears later; scan must include line 0", ["C03"]),
     "c05-1": ("C05", "validation-mode whose FIRST token is no-stop, a non-raising error, and at least one more line after it", ["C05"]),
